@@ -11,7 +11,7 @@ class C01(C.ProgramDiff):
     technique = 'property-based differential testing against a reference SLD interpreter (Hypothesis, byte-genome program generator)'
     rule = ('programs of facts and rules over calls, =, \\=, true, fail and conjunction (2-8 clauses + optional '
             'library predicates app/mem/len/rev/sel/perm/nat) decoded from a Hypothesis byte genome, printed with '
-            'generated layout, 3 queries each (one case in ten adds a predicate whose clauses use the same variable NAME as head argument, as body-only variable and as head argument again, written with explicit names; one in eight is loaded as two scripts); compiled + loaded into a fresh engine and enumerated; answer '
+            'generated layout, 3 queries each (one case in ten adds a predicate whose clauses use the same variable NAME as head argument, as body-only variable and as head argument again, written with explicit names; one in eight is loaded as two scripts; in one in twelve the host program interns 40 / 700 / 5000 unused atom names, makes variables and builds terms after every answer while the query is suspended); compiled + loaded into a fresh engine and enumerated; answer '
             'sequence compared with reference interpreter R (bindings, order, multiplicity, aliasing, termination, '
             'no exception). Non-trivial = R finished with >= 3 calls and the case has >= 2 answers, recursion '
             'depth >= 2, a repeated head variable, aliasing in an answer, a goal followed by fail, or arity 0; '
@@ -51,6 +51,10 @@ class C01(C.ProgramDiff):
             case.pop('split', None)
             Q0, Q1 = gen.QVARS[0], gen.QVARS[1]
             case['queries'] = [f('acc', Q0, Q1), f('acc', Q0, A('c')), f('acc', A('k'), Q1)]
+        if src.n(12) == 5:
+            # the embedding program keeps using the engine while the query is suspended: it interns atom names nobody
+            # uses (a few, or more than any table of a few thousand entries holds), makes variables, builds terms
+            case['host_noise'] = src.pick([40, 700, 5000])
         return case
 
 
